@@ -41,6 +41,61 @@ func catchImpls(c *core.Ctx, pkg string) []*catchImpl {
 		names = append(names, n)
 	}
 	sort.Strings(names)
+	// the closed-world interfaces that carry the hand-off role: a type is an implementation only when it has every
+	// method such an interface asks for (a helper type that merely offers catch/errch-shaped methods to the
+	// implementations - a shared failure policy - is reached through them, by inlining, and is not one itself)
+	var roleIfaces [][]string
+	for _, n := range names {
+		t, ok := sp.Members[n].(*ssa.Type)
+		if !ok {
+			continue
+		}
+		it, ok := t.Type().Underlying().(*types.Interface)
+		if !ok {
+			continue
+		}
+		has := false
+		var ms []string
+		for i := 0; i < it.NumMethods(); i++ {
+			m := it.Method(i)
+			ms = append(ms, m.Name())
+			if sig, ok := m.Type().(*types.Signature); ok && sigIsCatch(sig) {
+				has = true
+			}
+		}
+		if has {
+			roleIfaces = append(roleIfaces, ms)
+		}
+	}
+	implements := func(named *types.Named) bool {
+		if len(roleIfaces) == 0 {
+			return true
+		}
+		have := map[string]bool{}
+		for i := 0; i < named.NumMethods(); i++ {
+			have[named.Method(i).Name()] = true
+		}
+		if st, ok := named.Underlying().(*types.Struct); ok {
+			for i := 0; i < st.NumFields(); i++ {
+				if st.Field(i).Embedded() {
+					ms := types.NewMethodSet(types.NewPointer(st.Field(i).Type()))
+					for j := 0; j < ms.Len(); j++ {
+						have[ms.At(j).Obj().Name()] = true
+					}
+				}
+			}
+		}
+	next:
+		for _, ms := range roleIfaces {
+			for _, m := range ms {
+				if !have[m] {
+					continue next
+				}
+			}
+			return true
+		}
+		return false
+	}
 	for _, n := range names {
 		t, ok := sp.Members[n].(*ssa.Type)
 		if !ok {
@@ -50,15 +105,32 @@ func catchImpls(c *core.Ctx, pkg string) []*catchImpl {
 		if !ok {
 			continue
 		}
+		if _, isIface := named.Underlying().(*types.Interface); isIface || !implements(named) {
+			continue
+		}
 		ci := &catchImpl{TypeName: pkgShort(pkg) + "." + n, Named: named}
-		for i := 0; i < named.NumMethods(); i++ {
-			m := named.Method(i)
+		// own methods and the ones promoted from an embedded strategy value (resolved to the declaring method)
+		mset := types.NewMethodSet(types.NewPointer(named))
+		for i := 0; i < mset.Len(); i++ {
+			m, ok := mset.At(i).Obj().(*types.Func)
+			if !ok {
+				continue
+			}
 			sig := m.Type().(*types.Signature)
-			switch {
-			case sigIsCatch(sig):
-				ci.Catch = c.W.Prog.FuncValue(m)
-			case sigIsErrch(sig):
-				ci.Errch = c.W.Prog.FuncValue(m)
+			if !sigIsCatch(sig) && !sigIsErrch(sig) {
+				continue
+			}
+			fv := c.W.Prog.FuncValue(m)
+			if fv == nil || len(fv.Blocks) == 0 {
+				fv = c.W.Prog.FuncValue(m.Origin())
+			}
+			if fv == nil {
+				continue
+			}
+			if sigIsCatch(sig) {
+				ci.Catch = fv
+			} else {
+				ci.Errch = fv
 			}
 		}
 		if ci.Catch == nil && ci.Errch == nil {
